@@ -49,11 +49,29 @@ STRENGTHENED2 = {
     ("C17", "1"): "C17 bounds now include intervals pinned away from zero ((c, c), c != 0)",
     ("C18", "1"): "C18 now runs the CLI with job counts that do not divide the rotation count, planting a rotation from the remainder",
 }
+STRENGTHENED3 = {
+    ("C01", "1"): "C01 sessions now also run in double precision in worker processes, on a target (offset 1000) that float32 cannot resolve",
+    ("C02", "2"): "C02 histories now score an interpolated rotation first, with a non-full mask and a hole in the target mask (first pass: obligation only, no-failing-input-found)",
+    ("C03", "1"): "C03 template-offset invariance now uses offsets of hundreds of template deviations with tolerance tau",
+    ("C03", "2"): "C03 planted copies now use templates of extent 5 / 6 / 9 and run with and without Fourier padding",
+    ("C05", "1"): "C05 now has a stream with more than 10 000 candidates in one update (number_of_peaks = map size)",
+    ("C08", "1"): "C08 now writes the same path several times with different volumes in one process (every format x gzip)",
+    ("C09", "1"): "C09 now writes the same path several times with different structures in one process",
+    ("C10", "2"): "C10 element filters now carry decoy names close to present ones ('CA' next to 'C')",
+    ("C13", "1"): "C13 now checks the masking form of centre extraction (centered_mask / mask_output=True), incl. axes without margin",
+    ("C13", "2"): "C13 now requests FFT plans one after the other for shapes that share the half-spectrum shape",
+    ("C14", "2"): "C14 now states the margin clause on the implementation's answer (valid extent of box + margin = box); first pass: correspondence only, no-failing-input-found",
+    ("C15", "2"): "C15 copy clauses now also use a memory-mapped source",
+    ("C16", "1"): "C16 now runs every program-point kind with every kind of exception (AttributeError, TypeError, ...)",
+    ("C17", "1"): "C17 now builds the density score with Fortran-ordered templates too",
+    ("C17", "2"): "C17 now runs the population-based optimiser with a box that excludes the default start",
+    ("C18", "1"): "C18 now has a plain-defaults case: template with an empty margin whose box overhangs the upper border of a target with non-fast extents",
+}
 import sys
 ROUND = int(sys.argv[1]) if len(sys.argv) > 1 else 1
-ROOT = "/tmp/seed" if ROUND == 1 else "/tmp/seed2"
-if ROUND == 2:
-    STRENGTHENED = STRENGTHENED2
+ROOT = {1: "/tmp/seed", 2: "/tmp/seed2", 3: "/tmp/seed3"}[ROUND]
+if ROUND >= 2:
+    STRENGTHENED = STRENGTHENED2 if ROUND == 2 else STRENGTHENED3
     first = {}
     for d in sorted(glob.glob(ROOT + "/C*/out/[12]")):
         rf = os.path.join(d, "result_first.json")
